@@ -1,8 +1,8 @@
 (* C20 — The shipped bindings are what regeneration from the sources would produce.
    Run.Gen_C20 is regenerated from /repo on every run by translators/tr_helpers.py. *)
 From Coq Require Import String List Bool.
-From LNML Require Import Model.Regen Proofs.RegenP.
-From Run Require Import Gen_C20 Inst_C20.
+From LNML Require Import Model.Regen Proofs.RegenP Model.RegenFull Proofs.RegenFullP.
+From Run Require Import Gen_C20 Inst_C20 Gen_C20full Inst_C20full.
 
 Theorem C20_regeneration_changes_nothing : regen_spec Gen_C20.facts.
 Proof. exact (regen_sound Gen_C20.facts Inst_C20.facts_ok). Qed.
@@ -12,3 +12,19 @@ Print Assumptions C20_regeneration_changes_nothing.
 Theorem C20_obligation_is_exact : forall f, regen_ok f = true <-> regen_spec f.
 Proof. exact (fun f => conj (regen_sound f) (regen_complete f)). Qed.
 Print Assumptions C20_obligation_is_exact.
+
+(* whole file: generateDS re-run on this run as regenerate-nml.sh prescribes (translators/tr_regen.py), every unit of
+   the regenerated module against the shipped one - generated methods, helper methods, class bases, module-level
+   functions, imports - and the header's recorded options against the script's *)
+Theorem C20_whole_file_regeneration : full_spec Gen_C20full.facts.
+Proof. exact (full_sound Gen_C20full.facts Inst_C20full.full_ok_holds). Qed.
+Print Assumptions C20_whole_file_regeneration.
+
+Theorem C20_whole_file_obligation_is_exact : forall f, full_ok f = true <-> full_spec f.
+Proof. exact (fun f => conj (full_sound f) (full_complete f)). Qed.
+Print Assumptions C20_whole_file_obligation_is_exact.
+
+Theorem C20_one_sided_change_detected : forall f o m d d',
+  unit_of (ff_regen f) o m = Some d -> unit_of (ff_shipped f) o m = Some d' -> d <> d' -> full_ok f = false.
+Proof. exact one_sided_change_detected. Qed.
+Print Assumptions C20_one_sided_change_detected.
